@@ -201,6 +201,8 @@ def run(ctx):
     for (i, spec), mo in zip(nm, nouts):
         check_name_mode(ctx, spec, root, f'n{i}', mo)
     k8_witness(ctx, root)
+    glob_correspondence(ctx, root)
+    unannotated_probe(ctx, root)
 
 
 def k8_witness(ctx, root):
@@ -231,6 +233,92 @@ def k8_witness(ctx, root):
         else:
             ctx.notes['K8'] = 'witness builds: finding K8 appears repaired'
     b.cleanup_module()
+
+
+def glob_correspondence(ctx, root):
+    """wildcard import strings: a generated module with task classes, helper classes and functions × patterns (`*`, `Pre*`, `*Suf`, `A*B`,
+    literal prefixes) through the real `get_classes_by_import_string(..., Task)` vs `Names.globSelect` of the Lean model on the task-class
+    names in definition order; oracle: a literal pattern selects the names it is a prefix of, `*` every task class"""
+    from taskchain import Task
+    from taskchain.utils.clazz import get_classes_by_import_string
+    frags = ['Train', 'Model', 'Data', 'T', 'K1', 'K10', 'X', '_P', 'Eval', 'Task']
+    for k in range(ctx.n(12, 120)):
+        rng = ctx.rng('glob', k)
+        names = []
+        while len(names) < rng.randint(2, 7):
+            nm = ''.join(rng.choice(frags) for _ in range(rng.randint(1, 3)))
+            if nm not in names and nm not in ('Task',) and not nm.startswith('__'):
+                names.append(nm)
+        modname = builder.gen.fresh_modname()
+        spec = {'classes': {}, 'files': {}, 'main': None, 'module': modname}
+        b = pl.materialize(spec, root / f'glob{k}', modname=modname)
+        f = (root / f'glob{k}').joinpath(*modname.split('.')).with_suffix('.py')
+        src = f.read_text()
+        for nm in names:
+            src += f"\n\nclass {nm}(Task):\n    def run(self) -> int:\n        return 1\n"
+        src += "\n\nclass NotATask:\n    pass\n\n\ndef Trainer():\n    return 1\n"
+        f.write_text(src)
+        b.module()
+        pats = ['*', rng.choice(names), rng.choice(names)[:2] + '*', '*' + rng.choice(frags), rng.choice(frags) + '*' + rng.choice(frags),
+                rng.choice(names)[:1], '*' + rng.choice(frags) + '*', rng.choice(names) + '*']
+        mod = b.module()
+        # a pattern with a wildcard ranges over the members DEFINED in the module; without one, the first member of the module's namespace
+        # (imported names included) whose name it is a prefix of is taken — then the caller keeps it if it is a task class
+        members = [n for n in vars(mod) if not n.startswith('__')]
+        mos = ctx.model.many([{'m': 'names', 'op': 'glob', 'pat': p_, 'names': names if '*' in p_ else members} for p_ in pats])
+        for p_, mo in zip(pats, mos):
+            case = {'classes': names, 'pattern': p_}
+            ctx.case(case, nontrivial='*' in p_); ctx.count('glob:' + ('wildcard' if '*' in p_ else 'literal'))
+            try:
+                got = [c.__name__ for c in get_classes_by_import_string(f'{modname}.{p_}', Task)]
+            except ImportError:
+                got = []
+            exp = mo.get('selected')
+            if '*' not in p_:
+                first = exp[:1]
+                exp = [n for n in first if isinstance(getattr(mod, n), type) and issubclass(getattr(mod, n), Task)]
+            if got != exp:
+                ctx.diverge('import_by_string:wildcard', case, got, exp)
+            if p_ == '*' and got != names:
+                ctx.fail('`module.*` does not stand for every task class of the module, in definition order', case, got)
+            if '*' not in p_ and got and not got[0].startswith(p_.split('.')[-1]):
+                ctx.fail('an import string selected a class whose name does not start with it', case, got)
+        b.cleanup_module()
+
+
+def unannotated_probe(ctx, root):
+    """a chain contains EXACTLY the non-abstract classes its configs declare — or construction fails: a module declared by wildcard that holds
+    a non-abstract task class the library cannot instantiate (no return annotation, so no data type) does not yield a chain without it"""
+    from taskchain import Task
+    for k in range(ctx.n(4, 24)):
+        rng = ctx.rng('unannotated', k)
+        spec = {'classes': {'K0': {'name': 'up', 'group': '', 'params': [], 'inputs': [], 'kind': 'json', 'run_args': []},
+                            'K1': {'name': 'down', 'group': '', 'params': [], 'inputs': [{'by': 'name', 'ref': '~u.*'}, {'by': 'name', 'ref': 'unmarked', 'default': 3}],
+                                   'kind': 'json', 'run_args': [], 'pull': [], 'in_kinds': {}}},
+                'files': {'main.json': {'tasks': '*'}}, 'main': 'main.json', 'module': builder.gen.fresh_modname()}
+        b = pl.materialize(spec, root / f'unann{k}', modname=spec['module'])
+        f = (root / f'unann{k}').joinpath(*spec['module'].split('.')).with_suffix('.py')
+        f.write_text(f.read_text() + "\n\nclass Unmarked(Task):\n    def run(self):\n        return {'u': 1}\n")
+        b.module()
+        how = rng.choice(['*', 'T*+U*', 'explicit'])
+        if how != '*':
+            import json as _json
+            pf = b.path('main.json')
+            d = _json.loads(pf.read_text())
+            m = spec['module']
+            d['tasks'] = [f'{m}.T*', f'{m}.U*'] if how == 'T*+U*' else [f'{m}.{pl.pyname("K0")}', f'{m}.{pl.pyname("K1")}', f'{m}.Unmarked']
+            pf.write_text(_json.dumps(d))
+        case = {'probe': 'declared class without a return annotation', 'declared_by': how}
+        ctx.case(case); ctx.count('unannotated-probe')
+        chain, err = None, None
+        try:
+            chain = pl.make_config(b, root / f'unann{k}' / 'data').chain()
+        except Exception as e:      # noqa: any construction error is fine — a chain is not
+            err = f'{type(e).__name__}: {e}'[:120]
+        if chain is not None and 'unmarked' not in chain.tasks:
+            ctx.fail('a chain was built without a non-abstract class its config declares (no error)', case,
+                     {'tasks': sorted(chain.tasks), 'inputs_of_down': sorted(map(str, chain.tasks['down'].input_tasks))})
+        b.cleanup_module()
 
 
 def search(ctx, divergences):
